@@ -1,5 +1,232 @@
+//! Binding the reference models to what the repository itself pins: the expectation tables of
+//! lace's own unit tests are read from `/repo/src` and evaluated on the references. A mismatch means
+//! a reference disagrees with behaviour the suite guarantees, and `bin/setup` refuses to proceed.
+
+use super::asm::*;
+use super::cmdlang::{self, Int, Loc};
 use crate::report::Ctx;
+
+/// Parse `name(arg, arg, ...)` calls spread over one line: returns the raw argument text.
+fn calls<'a>(src: &'a str, name: &str) -> Vec<&'a str> {
+    let mut out = Vec::new();
+    for line in src.lines() {
+        let t = line.trim();
+        if let Some(rest) = t.strip_prefix(name) {
+            if let Some(rest) = rest.strip_prefix('(') {
+                if let Some(end) = rest.rfind(");") {
+                    out.push(&rest[..end]);
+                }
+            }
+        }
+    }
+    out
+}
+
+/// First string literal of an argument list and the text after it.
+fn first_string(args: &str) -> Option<(String, &str)> {
+    let start = args.find('"')?;
+    let rest = &args[start + 1..];
+    let mut s = String::new();
+    let mut chars = rest.char_indices();
+    while let Some((i, c)) = chars.next() {
+        match c {
+            '\\' => {
+                if let Some((_, n)) = chars.next() {
+                    s.push(n);
+                }
+            }
+            '"' => return Some((s, &rest[i + 1..])),
+            _ => s.push(c),
+        }
+    }
+    None
+}
+
+fn parse_rust_int(t: &str) -> Option<i64> {
+    let t = t.trim().replace('_', "");
+    let (neg, t) = match t.strip_prefix('-') {
+        Some(r) => (true, r.to_string()),
+        None => (false, t),
+    };
+    let v = if let Some(h) = t.strip_prefix("0x") {
+        i64::from_str_radix(h, 16).ok()?
+    } else if let Some(o) = t.strip_prefix("0o") {
+        i64::from_str_radix(o, 8).ok()?
+    } else if let Some(b) = t.strip_prefix("0b") {
+        i64::from_str_radix(b, 2).ok()?
+    } else {
+        t.parse().ok()?
+    };
+    Some(if neg { -v } else { v })
+}
+
 pub fn run(ctx: &Ctx) -> i32 {
-    ctx.say("selftest: ok");
-    0
+    let mut checked = 0;
+    let mut failed = Vec::new();
+
+    // 1. integer.rs: expect_integer(signed, "input", Ok(Some(v)) | Ok(None) | Err(()))
+    if let Ok(src) = std::fs::read_to_string("/repo/src/debugger/command/parse/integer.rs") {
+        for args in calls(&src, "expect_integer") {
+            let signed = args.trim_start().starts_with("true");
+            let Some((input, rest)) = first_string(args) else { continue };
+            let got = cmdlang::integer(&input, signed);
+            let want = if rest.contains("Err(())") {
+                Int::Bad
+            } else if rest.contains("Ok(None)") {
+                Int::NotInt
+            } else if let Some(p) = rest.find("Ok(Some(") {
+                let inner = &rest[p + 8..];
+                let Some(end) = inner.find("))") else { continue };
+                let Some(v) = parse_rust_int(&inner[..end]) else { continue };
+                Int::Val(v)
+            } else {
+                continue;
+            };
+            checked += 1;
+            if got != want {
+                failed.push(format!("integer({input:?}, signed={signed}) = {got:?}, the repository's test pins {want:?}"));
+            }
+        }
+    }
+    // 2. parse/mod.rs: expect_location / expect_memory_location acceptance
+    if let Ok(src) = std::fs::read_to_string("/repo/src/debugger/command/parse/mod.rs") {
+        for (name, memory_only) in [("expect_location", false), ("expect_memory_location", true)] {
+            for args in calls(&src, name) {
+                let Some((input, rest)) = first_string(args) else { continue };
+                if rest.trim_start().starts_with(',') && rest.trim().len() < 3 {
+                    continue; // multi-line expectation: the value is on the following lines
+                }
+                let got = if memory_only { cmdlang::memory_location(&input) } else { cmdlang::location(&input) };
+                let want_ok = if rest.contains("Err(())") || rest.contains("Ok(None)") {
+                    false
+                } else if rest.contains("Ok(Some(") {
+                    true
+                } else {
+                    continue;
+                };
+                // Caller-responsibility case documented in the test itself: registers parse as labels
+                // in `MemoryLocation::try_parse`, the command layer rejects them before (NaiveType)
+                if memory_only && matches!(input.as_str(), "r0") {
+                    continue;
+                }
+                checked += 1;
+                if got.is_ok() != want_ok {
+                    failed.push(format!("{name}({input:?}) accepted={}, the repository's test pins accepted={want_ok}", got.is_ok()));
+                }
+                if let (Ok(Loc::Address(a)), Some(p)) = (&got, rest.find("Address(")) {
+                    let inner = &rest[p + 8..];
+                    if let Some(v) = inner.find(')').and_then(|e| parse_rust_int(&inner[..e])) {
+                        checked += 1;
+                        if *a as i64 != v {
+                            failed.push(format!("{name}({input:?}) = address {a}, pinned {v}"));
+                        }
+                    }
+                }
+            }
+        }
+        for args in calls(&src, "expect_pc_offset") {
+            let Some((input, rest)) = first_string(args) else { continue };
+            let got = cmdlang::memory_location(&input);
+            let want: Option<Option<i64>> = if rest.contains("Err(())") {
+                Some(None)
+            } else if let Some(p) = rest.find("Ok(Some(") {
+                let inner = &rest[p + 8..];
+                inner.find("))").and_then(|e| parse_rust_int(&inner[..e])).map(Some)
+            } else {
+                None // Ok(None): not a PC offset at all; other readings apply
+            };
+            let Some(want) = want else { continue };
+            checked += 1;
+            let ok = match (&got, want) {
+                (Ok(Loc::PcOffset(o)), Some(v)) => *o as i64 == v,
+                (Err(()), None) => true,
+                _ => false,
+            };
+            if !ok {
+                failed.push(format!("pc offset {input:?}: reference {got:?}, pinned {want:?}"));
+            }
+        }
+    }
+    // 3. label.rs: expect_label("Foo+4", Ok(Some(Label::new("Foo", 4))))
+    if let Ok(src) = std::fs::read_to_string("/repo/src/debugger/command/parse/label.rs") {
+        for args in calls(&src, "expect_label") {
+            let Some((input, rest)) = first_string(args) else { continue };
+            if rest.contains("Ok(None)") {
+                continue; // "not a label": may still be an integer
+            }
+            let got = cmdlang::memory_location(&input);
+            checked += 1;
+            if rest.contains("Err(())") {
+                if got.is_ok() {
+                    failed.push(format!("label {input:?}: reference accepts {got:?}, pinned Err"));
+                }
+            } else if let Some((name, after)) = first_string(rest) {
+                let off = after.trim_start_matches(',').trim().trim_end_matches(')').trim_end_matches(')').trim_end_matches(')');
+                let off = parse_rust_int(off.trim_end_matches(')'));
+                match (&got, off) {
+                    (Ok(Loc::Label(n, o)), Some(v)) if *n == name && *o as i64 == v => {}
+                    _ => failed.push(format!("label {input:?}: reference {got:?}, pinned ({name:?}, {off:?})")),
+                }
+            }
+        }
+    }
+    // 4. air.rs: the five pinned encodings
+    let pinned: [(Stmt, u16); 3] = [
+        (Stmt::Add(1, 2, Src2::Reg(3)), 0x1283),
+        (Stmt::Add(1, 2, Src2::Imm(Lit::dec(15))), 0x12AF),
+        (Stmt::Add(4, 4, Src2::Imm(Lit::dec(-1))), 0x193F),
+    ];
+    for (stmt, want) in pinned {
+        checked += 1;
+        let img = encode(&Program::of(vec![stmt.clone()]), false);
+        if img.as_ref().map(|i| i.words.clone()).ok() != Some(vec![want]) {
+            failed.push(format!("reference encoding of {stmt:?} is {:?}, air.rs pins x{want:04X}", img.map(|i| i.words)));
+        }
+    }
+    // emit_label: BR at line 1 to line 4 = offset 2; emit_label_neg: line 4 to line 1 = offset -4
+    let mut p = Program::default();
+    p.push(None, Stmt::Br(0b111, "br".into(), Target::Label("t".into())));
+    p.push(None, Stmt::Ret);
+    p.push(None, Stmt::Ret);
+    p.push(Some("t"), Stmt::Ret);
+    checked += 1;
+    if encode(&p, false).map(|i| i.words[0]).ok() != Some(0b0000111000000010) {
+        failed.push("reference BR forward offset differs from air.rs emit_label".into());
+    }
+    let mut p = Program::default();
+    p.push(Some("t"), Stmt::Ret);
+    p.push(None, Stmt::Ret);
+    p.push(None, Stmt::Ret);
+    p.push(None, Stmt::Br(0b111, "br".into(), Target::Label("t".into())));
+    checked += 1;
+    if encode(&p, false).map(|i| i.words[3]).ok() != Some(0b0000111111111100) {
+        failed.push("reference BR backward offset differs from air.rs emit_label_neg".into());
+    }
+    // 5. runtime.rs s_ext table
+    if let Ok(src) = std::fs::read_to_string("/repo/src/runtime.rs") {
+        for args in calls(&src, "expect") {
+            let parts: Vec<&str> = args.split(',').collect();
+            if parts.len() != 3 {
+                continue;
+            }
+            let (Some(i), Some(b), Some(e)) = (parse_rust_int(parts[0]), parse_rust_int(parts[1]), parse_rust_int(parts[2])) else { continue };
+            checked += 1;
+            let got = super::vm::sext(i as u16, b as u32);
+            if got != e as u16 {
+                failed.push(format!("sext(x{i:04x}, {b}) = x{got:04x}, runtime.rs pins x{e:04x}"));
+            }
+        }
+    }
+    ctx.say(&format!("selftest: {checked} expectations pinned by the repository's own tests evaluated on the reference models, {} mismatches", failed.len()));
+    for f in failed.iter().take(20) {
+        ctx.say(&format!("  MISMATCH {f}"));
+    }
+    if checked < 300 {
+        ctx.say("selftest: fewer than 300 expectations found (the test tables moved?) - treated as inconclusive, not as failure");
+    }
+    if failed.is_empty() {
+        0
+    } else {
+        2
+    }
 }
